@@ -31,23 +31,33 @@ def vc_to_smt2(hyps, goal):
     return s.to_smt2()
 
 
-def _z3_check(smt2, timeout_ms):
-    s = z3.Solver()
-    s.set("timeout", timeout_ms)
-    s.from_string(smt2)
+def _z3_check(smt2, timeout_ms, seeds=(0, 7, 23, 101)):
+    """z3 on the query, as a small portfolio over random seeds (quantifier instantiation order is sensitive to
+    them): the first decisive answer wins; `unknown` only if every attempt is undecided"""
     t0 = time.time()
-    r = s.check()
-    dt = time.time() - t0
-    if r == z3.unsat:
-        return "unsat", dt, ""
-    if r == z3.sat:
-        try:
-            m = s.model()
-            txt = "\n".join("%s = %s" % (d.name(), m[d]) for d in m.decls())[:4000]
-        except Exception as e:  # pragma: no cover
-            txt = "model unavailable: %s" % e
-        return "sat", dt, txt
-    return "unknown", dt, s.reason_unknown()
+    info = ""
+    per = max(1500, timeout_ms // len(seeds))
+    for n, seed in enumerate(seeds):
+        s = z3.Solver()
+        s.set("timeout", per if n < len(seeds) - 1 else max(per, timeout_ms - int((time.time() - t0) * 1000)))
+        s.set("random_seed", seed)
+        if seed:
+            s.set("smt.random_seed", seed)
+        s.from_string(smt2)
+        r = s.check()
+        if r == z3.unsat:
+            return "unsat", time.time() - t0, "seed %d" % seed
+        if r == z3.sat:
+            try:
+                m = s.model()
+                txt = "\n".join("%s = %s" % (d.name(), m[d]) for d in m.decls())[:4000]
+            except Exception as e:  # pragma: no cover
+                txt = "model unavailable: %s" % e
+            return "sat", time.time() - t0, txt
+        info = s.reason_unknown()
+        if (time.time() - t0) * 1000 > timeout_ms:
+            break
+    return "unknown", time.time() - t0, info
 
 
 def _cvc5_check(smt2, timeout_ms):
@@ -100,7 +110,10 @@ def _solve_one(args):
     """runs in a worker process: smt2 text of (hyps, not goal) -> verdict"""
     smt2, t_z3, t_cvc5, use_cvc5, poly, derived = args
     t0 = time.time()
-    asserts = z3.parse_smt2_string(smt2)
+    try:
+        asserts = z3.parse_smt2_string(smt2)
+    except z3.Z3Exception as e:
+        raise RuntimeError("SMT-LIB round trip failed: %s" % str(e)[:400])
     hyps, goal = list(asserts[:-1]), asserts[-1].arg(0)
     # A => B as goal: A joins the hypotheses (for the polynomial back end)
     phyps, pgoal = list(hyps), goal
@@ -121,6 +134,15 @@ def _solve_one(args):
             if ok:
                 return "discharged", "groebner", time.time() - t0, how
             eq_goal = False  # already tried
+    # stage A: without the hypotheses that constrain nonlinear polynomials (sound: fewer hypotheses)
+    lin_hyps = [h for h in hyps if not is_nl_constraint(h)]
+    if len(lin_hyps) != len(hyps) and not is_nl_constraint(goal):
+        rA, dtA, infoA = _z3_check(vc_to_smt2(lin_hyps, goal), t_z3)
+        if rA == "unsat":
+            return "discharged", "z3", time.time() - t0, "without nonlinear constraints"
+        okA = _split_last(lin_hyps, goal, min(t_z3, 8000))
+        if okA:
+            return "discharged", "z3+split", time.time() - t0, okA
     ok = _split_last(hyps, goal, min(t_z3, 4000))
     if ok:
         return "discharged", "z3+split", time.time() - t0, ok
@@ -186,6 +208,65 @@ def _split_last(hyps, goal, t_ms):
         if s_.check() != z3.unsat:
             return None
     return "case split on %s = %s - 1" % (v, str(H)[:40])
+
+
+def _arith_nl(t):
+    """nonlinear multiplication at the arithmetic level of t (not inside arguments of uninterpreted functions)"""
+    stack = [t]
+    while stack:
+        x = stack.pop()
+        if not z3.is_app(x):
+            continue
+        k = x.decl().kind()
+        if k == z3.Z3_OP_UNINTERPRETED:
+            continue
+        if k == z3.Z3_OP_MUL and sum(1 for c in x.children() if not (z3.is_rational_value(c) or
+                                                                    z3.is_int_value(c))) >= 2:
+            return True
+        if k in (z3.Z3_OP_ADD, z3.Z3_OP_SUB, z3.Z3_OP_MUL, z3.Z3_OP_UMINUS, z3.Z3_OP_TO_REAL, z3.Z3_OP_ITE,
+                 z3.Z3_OP_DIV, z3.Z3_OP_POWER):
+            stack.extend(x.children())
+    return False
+
+
+def _simple(t):
+    while z3.is_app(t) and t.decl().kind() == z3.Z3_OP_TO_REAL:
+        t = t.arg(0)
+    return z3.is_app(t) and t.decl().kind() == z3.Z3_OP_UNINTERPRETED
+
+
+def is_nl_constraint(h):
+    """hypothesis that constrains nonlinear polynomials (orthonormality, determinant, norm^2 = ...) rather than
+    defining a value (v == polynomial).  Such hypotheses are left out in the first solving stage."""
+    x = h
+    for _ in range(4):
+        if z3.is_quantifier(x):
+            x = x.body()
+        elif z3.is_implies(x):
+            x = x.arg(1)
+        else:
+            break
+    atoms = []
+    stack = [x]
+    while stack:
+        y = stack.pop()
+        if z3.is_and(y) or z3.is_or(y) or z3.is_not(y) or z3.is_implies(y):
+            stack.extend(y.children())
+        elif z3.is_quantifier(y):
+            stack.append(y.body())
+        else:
+            atoms.append(y)
+    for a in atoms:
+        if z3.is_app(a) and a.num_args() == 2 and a.decl().kind() in (z3.Z3_OP_EQ, z3.Z3_OP_LE, z3.Z3_OP_GE,
+                                                                      z3.Z3_OP_LT, z3.Z3_OP_GT):
+            l, r = a.arg(0), a.arg(1)
+            if not (z3.is_arith(l) and z3.is_arith(r)):
+                continue
+            if a.decl().kind() == z3.Z3_OP_EQ and (_simple(l) or _simple(r)):
+                continue   # a definition
+            if _arith_nl(l) or _arith_nl(r):
+                return True
+    return False
 
 
 def _nonlinear(t):
